@@ -23,6 +23,10 @@ def sh(cmd, cwd, timeout=3600, env=None):
 def main(tag):
     pid = tag.split("-")[0]
     src = "/tmp/seed-%s/SEED" % tag
+    if not os.path.isdir(src):      # re-verification of a kept seed
+        src = "/var/tmp/reseed-%s" % tag
+        shutil.rmtree(src, ignore_errors=True)
+        shutil.copytree("/verif/seeded/%s" % tag, src)
     meta = json.load(open(os.path.join(src, "meta.json")))
     wt = "/tmp/vs-%s" % tag
     out = {"tag": tag, "steps": {}}
